@@ -41,6 +41,9 @@ def emitted_names(fx):
 def run(ctx):
     for config in ctx.configs:
         fx = ctx.facts(config)
+        # an option (compact_list_indent) may move text, never make it unparseable: shared layout rule (C13)
+        from .C13 import rule_empty_seq_indent
+        rule_empty_seq_indent(ctx, fx, config, prop="C20")
         em = emitted_names(fx)
         nt = fx.fn(SER_NEWTYPE)
         ts = fx.fn(SER_TUPLE)
